@@ -96,6 +96,7 @@ static void do_dump(void)
     char *a = esl_opt_GetArg(G, i);
     APP("%s%s", i > 1 ? "," : "", a ? (a[0] ? h_hex(a, (int64_t) strlen(a)) : "-") : "~");
   }
+  APP(" a0=%s%s", esl_opt_GetArg(G, 0) ? "x" : "~", esl_opt_GetArg(G, -1) ? "x" : "~");   /* no argument 0 or -1 */
   APP(" opts=");
   for (i = 0; i < nT; i++) {
     char *nm = T[i].name; char typed[96];
